@@ -221,9 +221,11 @@ def interrupt(R, prog):
     G = K.build(R, prog, 'photon::thread_interrupt')
     f = G.root
     res = an.run(G, [an.LockTracker(), an.GuardTracker(lambda k: True)])
+    th = K.param(f, 0)
+    snap = K.locals_defined_only_by(f, r'^%s->state$' % re.escape(th)) | {th + '->state'}
     K.check_at(R, P + '.K6', G, res, lambda ev: wr_field(ev, ERRN),
                require=lambda st, ev: any(re.match(r'^G:\w+ == 0=T$', x) or re.match(r'^G:\w+=F$', x) or re.match(r'^G:\w+->error_number=F$', x) for x in st if 'error_number' in x)
-               and any(re.match(r'^G:state == 0=T$', x) or re.match(r'^G:state=F$', x) for x in st),
+               and any(('G:%s == 0=T' % n) in st or ('G:%s=F' % n) in st for n in snap),
                key_fn=lambda ev: P + '.K6:photon::thread_interrupt:mark-only-ready-unmarked',
                describe=lambda ev: 'without the thread lock a reason is stored only for a READY thread with no pending reason', min_sites=1, what='error_number write')
     # timed-out sleepers
